@@ -3,7 +3,6 @@ import AvroModel.Theorems.C01de
 import AvroModel.Theorems.C02
 import AvroModel.Theorems.C01glue
 import AvroModel.Theorems.C01driver
-import AvroModel.Theorems.C01reader
 /-
 C01 — the datum round trip, all parts together:
 * `C02_sound_partial` (Theorems/C02.lean): what the implementation's serializer writes decodes,
